@@ -116,6 +116,10 @@ func (b *NodeBuilder) WithExecFuncAny(fn func(context.Context, any) (any, error)
 // Returns the builder for method chaining.
 func (b *NodeBuilder) WithPostFuncAny(fn func(context.Context, *SharedStore, any, any) (Action, error)) *NodeBuilder {
 	b.postFunc = func(ctx context.Context, shared *SharedStore, prepResult, execResult Result) (Action, error) {
+		if execResult.IsError() {
+			// keep the error state visible to the any-style function
+			return fn(ctx, shared, prepResult.Value(), execResult)
+		}
 		return fn(ctx, shared, prepResult.Value(), execResult.Value())
 	}
 	return b
